@@ -51,19 +51,30 @@ def decorator(kind, ver):
             "marking": mod.CustomMarking, "extension": mod.CustomExtension}[kind]
 
 
+REGS = {}     # class name of a registration -> the properties object the caller passed, the class built, its table then
+
+
+def table_of(c):
+    return [list(c._properties), list(getattr(c, "_toplevel_properties", None) or [])]
+
+
 def do_register(o):
     body = {}
     if o.get("exttype"):
         body["extension_type"] = o["exttype"]
     cls = type(str(o["cls"]), (object,), body)
     props = [(p[0], make_prop(p[1], o["ver"], required=(len(p) > 2 and p[2]))) for p in o["props"]]
+    if o.get("props_as") == "dict":
+        props = dict(props)        # the caller's own dictionary (kept, and possibly changed later by a `mutate` op)
     kwargs = {}
     if o.get("extname") is not None:
         kwargs["extension_name"] = o["extname"]
+    REGS[o["cls"]] = {"props": props, "ver": o["ver"], "class": None, "table": None}
     try:
         new = decorator(o["kind"], o["ver"])(o["name"], props, **kwargs)(cls)
     except Exception as e:  # noqa: BLE001
         return "exc:" + type(e).__name__, None
+    REGS[o["cls"]].update({"class": new, "table": table_of(new)})
     return "ok", new
 
 
@@ -142,6 +153,20 @@ def do_op(o):
     k = o["op"]
     if k == "reg":
         return do_register(o)[0]
+    if k == "mutate":
+        # the caller goes on using the properties object it passed to an earlier decorator
+        t = REGS.get(o["target"])
+        if t is None:
+            return "ok"
+        pr = make_prop(o["prop"][1], t["ver"])
+        if isinstance(t["props"], dict):
+            t["props"][o["prop"][0]] = pr
+        else:
+            t["props"].append((o["prop"][0], pr))
+        return "ok"
+    if k == "tables":
+        changed = sorted(n for n, t in REGS.items() if t["class"] is not None and table_of(t["class"]) != t["table"])
+        return "same" if not changed else "changed:" + ",".join(changed)
     if k == "cft":
         try:
             c = registry.class_for_type(o["name"], o["ver"], o.get("cat"))
@@ -438,8 +463,46 @@ def run_names(case):
     return out
 
 
+def run_marking_pairs(case):
+    """Register two custom markings per version; then MarkingDefinition(definition_type=A, definition=<OBJECT of
+    the class registered as B>) for every pair, custom and built-in: accepted, refused, and whether an accepted
+    one serializes to something that parses back to an equal object."""
+    import stix2
+    from stix2 import properties as P
+    out = {}
+    for ver, mod in (("2.0", stix2.v20), ("2.1", stix2.v21)):
+        classes = {}
+        for nm, prop in ((case["m1"], "alpha_val"), (case["m2"], "beta_val")):
+            try:
+                classes[nm] = (mod.CustomMarking(nm, [(prop, P.StringProperty(required=True))])(type("M_" + prop, (object,), {})), {prop: "v"})
+            except Exception as e:  # noqa: BLE001
+                out.setdefault("register", {})[ver + " " + nm] = "exc:" + type(e).__name__
+        classes["tlp"] = (mod.TLPMarking, {"tlp": "white"})
+        classes["statement"] = (mod.StatementMarking, {"statement": "s"})
+        rows = {}
+        for a in classes:
+            for b, (cb, vb) in classes.items():
+                if a == "tlp" and b == "tlp":
+                    continue                       # TLP instances are a closed set with fixed ids
+                kw = dict(id="marking-definition--" + UUID4, created=T0, definition_type=a, definition=cb(**vb))
+                try:
+                    md = mod.MarkingDefinition(**kw)
+                except Exception as e:  # noqa: BLE001
+                    rows[a + " <- " + b] = "exc:" + type(e).__name__
+                    continue
+                try:
+                    back = stix2.parse(json.loads(md.serialize()), version=ver)
+                    rows[a + " <- " + b] = "ok" if back == md else "ok-but-reparsed-differs"
+                except Exception as e:  # noqa: BLE001
+                    rows[a + " <- " + b] = "ok-but-unparseable:" + type(e).__name__
+        out[ver] = rows
+    return out
+
+
 def run_one(case):
     k = case["k"]
+    if k == "marking_pairs":
+        return run_marking_pairs(case)
     if k == "history":
         return run_history(case)
     if k == "guarantee":
@@ -472,7 +535,7 @@ def main():
         if not line:
             continue
         case = json.loads(line)
-        if case["k"] in ("history", "guarantee") or case.get("fresh"):
+        if case["k"] in ("history", "guarantee", "marking_pairs") or case.get("fresh"):
             print(json.dumps(fresh(case)))
         else:
             print(json.dumps(run_one(case)))
